@@ -526,6 +526,11 @@ def _ok(v):
     return ('ok', v)
 
 
+def _absent(*a):
+    # a composed mapping whose SOURCE field is not in the header fails for every row, inside the mapping (wave 9)
+    raise KeyError('zz')
+
+
 # ------------------------------------------------------------------------------------------------
 # call forms: name -> dict(style, level, header(out), model(row [, extra]))
 # ------------------------------------------------------------------------------------------------
@@ -598,6 +603,12 @@ FORMS = {
                                             model=lambda r: [_try(conv, r[0]), _ok(r[1])]),
     'fieldmap{a: (a, f), b: b}':   dict(style='num', level='cell', header=HEADER,
                                         model=lambda r: [_try(conv, r[0]), _ok(r[1])]),
+    'fieldmap{p: (zz, f), q: b, r: (a, f)} absent source field': dict(
+        style='num', level='cell', header=('p', 'q', 'r'),
+        model=lambda r: [_try(_absent), _ok(r[1]), _try(conv, r[0])]),
+    'fieldmap{p: (zz, dict), q: (a, f)} absent source field': dict(
+        style='num', level='cell', header=('p', 'q'),
+        model=lambda r: [_try(_absent), _try(conv, r[0])]),
     # ---- rowmap (row level)
     'rowmap(f)':                   dict(style='num', level='row', header=('x', 'y', 'z'),
                                         model=lambda r: _rows_of(rowmapper, r)),
